@@ -251,6 +251,11 @@ pub fn generate(thorough: bool, rng: &mut Rng, ops: &mut Vec<String>, stats: &mu
         ops.push(format!("c04 tamper {}", rng.below(1 << 40)));
         stats.hit("tamper");
     }
+    // pack files extended at the FRONT (the header at the end stays intact), then the header re-read paths and a read of every file
+    for _ in 0..(if thorough { 40 } else { 4 }) {
+        ops.push(format!("c04 tamper front {}", rng.below(1 << 40)));
+        stats.hit("tamper.front");
+    }
     ops.push(format!("c04 swap snapshot {}", rng.below(1 << 40)));
     // exchange two stored files of the same type, for every type: index / pack / key files (reads fail or are unchanged), and
     // the border case of two data packs with identical layout
@@ -1268,6 +1273,209 @@ fn exec_tamper(seed: u64) -> String {
     "ok".into()
 }
 
+// ------------------------------------------------------------------ tamper front: packs extended at the FRONT
+
+/// every snapshot of `snaps` read (ls + dump of every file) through an already indexed repository
+fn read_with<S: rustic_core::IndexedFull>(repo: &Repository<S>, snaps: &[SnapshotFile]) -> Result<Vec<Vec<repo::ReadBack>>, String> {
+    let ids: Vec<String> = snaps.iter().map(|s| s.id.to_hex().to_string()).collect();
+    let got = repo.get_snapshots(&ids).map_err(|e| errkind(&e))?;
+    let mut out = Vec::new();
+    for s in &got {
+        out.push(repo::read_back(repo, s).map_err(|e| errkind(&e))?);
+    }
+    Ok(out)
+}
+
+/// `tamper front <seed>`: pack files EXTENDED AT THE FRONT.  The pack header sits at the END of the file and lists blob LENGTHS
+/// only (offsets are implied: back to back from 0), so a front-extended pack still ends in an intact, authenticated header — what
+/// ties that header to the file is the size comparison in `PackHeader::from_file` (model: `Pack.fromFile`, theorems
+/// `C08.from_file_ok_sizes` / `from_file_rejects_front_extended`).  Repository with EQUAL-LENGTH blobs in one data pack (equally
+/// sized incompressible files, or one file under the fixed-size chunker), so that a read at a wrong blob border still finds a
+/// complete valid message.  For every pack × prefix ∈ {one byte, random bytes, random bytes of the first blob's length, copy of
+/// the first blob, the first bytes up to the distance of two equal-length blobs, the whole pack (= pack duplicated)}:
+///  * direct read with the (stale) index: fails or returns the original content — compared for the prefixes that do not put
+///    another valid blob at a recorded offset (for the others a stale index pointing at a valid message of another blob is the
+///    known finding `swap packtwin`: blob ids are not verified on read);
+///  * `check` must report the pack;
+///  * `to_indexed_checked()` (re-reads the header because the size differs): must not return other content — nor accept the pack;
+///  * `repair_index` (default / `--read-all`) on a copy of the store, then every file is read: fails or returns the original
+///    content; the tampered pack must not be listed by the rebuilt index.
+fn exec_tamper_front(seed: u64) -> String {
+    let mut rng = Rng::new(seed);
+    let mut cfg = ConfigOptions::default();
+    match rng.below(3) {
+        0 => {}
+        1 => cfg.set_compression = Some(-3),
+        _ => cfg.set_compression = Some(0),
+    }
+    let fixed = rng.chance(1, 2);
+    let chunk = 256usize << rng.below(4);
+    if fixed {
+        cfg.set_chunker = Some(rustic_core::repofile::Chunker::FixedSize);
+        cfg.set_chunk_size = Some(bytesize::ByteSize(chunk as u64));
+    }
+    let (h, _r) = match RepoHandle::init_nocache(MemBackend::new(), None, &cfg) {
+        Ok(x) => x,
+        Err(e) => return errkind(&e),
+    };
+    let mut snaps = Vec::new();
+    for round in 0..(1 + rng.below(2)) {
+        let mut entries = Vec::new();
+        if fixed {
+            // one file of m whole chunks (m equal-length blobs) and a short one
+            let m = 3 + rng.below(6) as usize;
+            entries.push(SrcEntry::file(&[format!("big{round}").as_bytes()], &rng.bytes(m * chunk)));
+            let k = 1 + rng.below(100) as usize;
+            entries.push(SrcEntry::file(&[format!("small{round}").as_bytes()], &rng.bytes(k)));
+        } else {
+            // equally sized incompressible files: one blob each, equal stored length
+            let n = 200 + rng.below(3000) as usize;
+            for i in 0..(3 + rng.below(4)) {
+                entries.push(SrcEntry::file(&[format!("f{round}-{i}").as_bytes()], &rng.bytes(n)));
+            }
+            let k = 1 + rng.below(150) as usize;
+            entries.push(SrcEntry::file(&[format!("other{round}").as_bytes()], &rng.bytes(k)));
+        }
+        let snap = match snapshot_opts().to_snapshot() {
+            Ok(s) => s,
+            Err(e) => return errkind(&e),
+        };
+        match repo::backup_nocache(&h, &MemSource::new(entries), &BackupOptions::default(), snap) {
+            Ok(s) => snaps.push(s),
+            Err(e) => return errkind(&e),
+        }
+    }
+    let original = match read_everything(&h, &snaps) {
+        Ok(o) => o,
+        Err(e) => return format!("oracle-fail:untampered-read:{e}"),
+    };
+    // the packs and the lengths of their blobs in file order
+    let mut packs: Vec<(Id, Vec<usize>)> = Vec::new();
+    {
+        let repo = match h.open_nocache() {
+            Ok(r) => r,
+            Err(e) => return errkind(&e),
+        };
+        let dbe = rustic_core::verif::repository::dbe(&repo);
+        for id in h.be.ids(FileType::Index) {
+            match dbe.get_file::<IndexFile>(&rustic_core::repofile::IndexId::from(id)) {
+                Ok(f) => {
+                    for p in &f.packs {
+                        let mut b: Vec<(u32, u32)> = p.blobs.iter().map(|b| (b.location.offset, b.location.length)).collect();
+                        b.sort_unstable();
+                        packs.push((Id::from(*p.id), b.into_iter().map(|(_, l)| l as usize).collect()));
+                    }
+                }
+                Err(e) => return errkind(&e),
+            }
+        }
+    }
+    packs.sort();
+    // (offset of blob j, offset of blob i) for j < i of equal stored length
+    let equal_pairs = |l: &[usize]| -> Vec<(usize, usize)> {
+        let off: Vec<usize> = l.iter().scan(0usize, |a, x| { let o = *a; *a += x; Some(o) }).collect();
+        let mut v = Vec::new();
+        for i in 0..l.len() {
+            for j in 0..i {
+                if l[i] == l[j] {
+                    v.push((off[j], off[i]));
+                }
+            }
+        }
+        v
+    };
+    if !packs.iter().any(|(_, l)| !equal_pairs(l).is_empty()) {
+        if std::env::var("C04_DEBUG").is_ok() {
+            eprintln!("fixed={fixed} chunk={chunk} packs={:?}", packs.iter().map(|(_, l)| l.clone()).collect::<Vec<_>>());
+        }
+        return "oracle-fail:setup-no-pack-with-equal-length-blobs".into();
+    }
+    let listed = |hh: &RepoHandle, pack: &Id| -> Result<bool, String> {
+        let repo = hh.open_nocache().map_err(|e| errkind(&e))?;
+        let dbe = rustic_core::verif::repository::dbe(&repo);
+        for id in hh.be.ids(FileType::Index) {
+            let f: IndexFile = dbe.get_file(&rustic_core::repofile::IndexId::from(id)).map_err(|e| errkind(&e))?;
+            if f.packs.iter().chain(f.packs_to_delete.iter()).any(|p| Id::from(*p.id) == *pack) {
+                return Ok(true);
+            }
+        }
+        Ok(false)
+    };
+    let mut case = 0u64;
+    for (pid, lens) in &packs {
+        let bytes = h.be.get(FileType::Pack, pid).unwrap_or_default();
+        // (name, prefix, may a stale index find ANOTHER valid blob at a recorded offset?)
+        let k = 2 + rng.below(70) as usize;
+        let mut prefixes: Vec<(&str, Vec<u8>, bool)> = vec![("byte", vec![rng.next() as u8], false), ("junk", rng.bytes(k), false)];
+        if let Some(l0) = lens.first() {
+            prefixes.push(("junk-bloblen", rng.bytes(*l0), true));
+            prefixes.push(("blob1", bytes[..*l0].to_vec(), true));
+            // a prefix as long as the distance of two equal-length blobs j < i (the first bytes of the pack repeated: whole blobs when
+            // j = 0): with offsets counted from 0 again, blob i's recorded range holds blob j — a complete valid message
+            let pairs = equal_pairs(lens);
+            if !pairs.is_empty() {
+                let (oj, oi) = *rng.pick(&pairs);
+                prefixes.push(("pair", bytes[..oi - oj].to_vec(), true));
+            }
+        }
+        prefixes.push(("pack", bytes.to_vec(), false));
+        for (name, prefix, aligned) in prefixes {
+            case += 1;
+            let mut t = prefix.clone();
+            t.extend_from_slice(&bytes);
+            let t = Bytes::from(t);
+            h.be.put_raw(FileType::Pack, *pid, t.clone());
+            let res: Result<(), String> = (|| {
+                // direct read, stale index
+                if !aligned {
+                    if let Ok(got) = read_everything(&h, &snaps) {
+                        if got != original {
+                            return Err(format!("oracle-fail:front-extended-pack-changed-content:{name}"));
+                        }
+                    }
+                }
+                // check reports it
+                if repo::check_errors_nocache(&h, false) == Some(0) {
+                    return Err(format!("oracle-fail:front-extended-pack-unnoticed-by-check:{name}"));
+                }
+                // header re-read when the index is loaded
+                if let Ok(repo) = h.open_nocache().map_err(|e| errkind(&e))?.to_indexed_checked() {
+                    if let Ok(got) = read_with(&repo, &snaps) {
+                        if got != original {
+                            return Err(format!("oracle-fail:front-extended-pack-changed-content-after-checked-index:{name}"));
+                        }
+                    }
+                    return Err(format!("oracle-fail:front-extended-pack-accepted-by-checked-index:{name}"));
+                }
+                // header re-read by `repair index`, on a copy of the store
+                let h2 = RepoHandle { be: MemBackend::from_store(h.be.store()), hot: None, key: h.key.clone() };
+                let read_all = case % 2 == 1;
+                h2.open_nocache()
+                    .and_then(|r| r.repair_index(&rustic_core::RepairIndexOptions::default().read_all(read_all), false))
+                    .map_err(|e| format!("{}@repair-index", errkind(&e)))?;
+                if let Ok(got) = read_everything(&h2, &snaps) {
+                    if got != original {
+                        return Err(format!("oracle-fail:front-extended-pack-changed-content-after-repair-index:{name}"));
+                    }
+                }
+                if listed(&h2, pid)? {
+                    return Err(format!("oracle-fail:front-extended-pack-reindexed:{name}"));
+                }
+                Ok(())
+            })();
+            h.be.put_raw(FileType::Pack, *pid, bytes.clone());
+            if let Err(e) = res {
+                return e;
+            }
+        }
+    }
+    // the untampered repository is still what it was
+    match read_everything(&h, &snaps) {
+        Ok(got) if got == original => "ok".into(),
+        _ => "oracle-fail:restored-store-differs".into(),
+    }
+}
+
 fn orig_len_diff(a: &[u8], b: &[u8]) -> Option<usize> {
     a.iter().zip(b.iter()).position(|(x, y)| x != y)
 }
@@ -1443,6 +1651,7 @@ pub fn exec(t: &[&str]) -> String {
         ["sites"] => exec_sites(),
         ["hist", seed] => seed.parse::<u64>().map_or("bad-op".into(), exec_hist),
         ["tamper", seed] => seed.parse::<u64>().map_or("bad-op".into(), exec_tamper),
+        ["tamper", "front", seed] => seed.parse::<u64>().map_or("bad-op".into(), exec_tamper_front),
         ["swap", "snapshot", seed] => seed.parse::<u64>().map_or("bad-op".into(), exec_swap),
         ["swap", "index", seed] => seed.parse::<u64>().map_or("bad-op".into(), |s| exec_swap_any(FileType::Index, s)),
         ["swap", "pack", seed] => seed.parse::<u64>().map_or("bad-op".into(), |s| exec_swap_any(FileType::Pack, s)),
